@@ -25,7 +25,7 @@ from ..gvn import Frame, Obj, PW, Vec, cases_of, veq, mk_pw, Unsupported, vkey
 from ..intervals import single_atom
 from ..mutation import MutationAnalysis
 from ..ref import ref
-from .common import RuleCtx, _short, split_at_loop, stored_names, range_args, judge
+from .common import section, RuleCtx, _short, split_at_loop, stored_names, range_args, judge
 
 C = Rat.const
 METRICS = ["r2", "rmsle", "rmspe", "rpd", "smape"]
@@ -55,12 +55,12 @@ def run(ctx):
         res.rule(k, v)
     res.rule("U7", "no cache-like parameter of evaluation / rdp has a mutable default that the function (or a callee it is passed to) writes: "
                    "one cache object is never shared between calls that did not ask for it")
-    _mutable_defaults(rc)
-    _global_cost_loop(rc)
-    _compute_cost(rc)
-    _partial(rc)
-    _global_rmse(rc)
-    _mip(rc)
+    section(rc, _mutable_defaults)
+    section(rc, _global_cost_loop)
+    section(rc, _compute_cost)
+    section(rc, _partial)
+    section(rc, _global_rmse)
+    section(rc, _mip)
     res.assumptions += ["real-number reading", "one cache is used with one metric and one curve (the statement's query sequences share a metric)",
                         "breakpoints ascending valid indices"]
     res.not_decided += ["bit-identity under floating point follows from U1 (same expression on the same operands) and is not separately checked",
